@@ -407,15 +407,22 @@ Proof.
       * exists q. repeat split; auto.
 Qed.
 
+Definition view_cond (b : base) (t i op rk : Z) (p : pend) : bool :=
+  (io_hb_op (inst_of b i) =? op) && (io_hb_te (inst_of b i) <? 0) &&
+  ((p_kind p =? kUpdate) && (p_inner p =? sHeartbeat) && (rk =? oOk) && io_flag (inst_of b i)
+   && (v_stok (vinfo_of b (p_val p)) =? io_tok (inst_of b i)) && (t - p_t p <? hb_update_timeout (ic_H (cfg_of b i)))).
+
 Lemma ret_shape_hb b t i op rk rev val p :
   aget (b_pend b) op = Some p ->
   let b' := bapply b (t, ERet i op rk rev val) in
   b_wt b' = b_wt b /\
   (forall j, let x' := inst_of b' j in let x := inst_of b j in
      io_flag x' = io_flag x /\ io_hb_ta x' = io_hb_ta x /\ io_hb_op x' = io_hb_op x /\ io_stopping x' = io_stopping x /\ io_stop_t x' = io_stop_t x /\
-     io_hb_te x' = if (i =? j) && (io_hb_op x =? op) && (io_hb_te x <? 0) then t else io_hb_te x).
+     io_hb_te x' = (if (i =? j) && (io_hb_op x =? op) && (io_hb_te x <? 0) then t else io_hb_te x) /\
+     io_acq_rev x' = io_acq_rev x /\ io_tok x' = io_tok x /\
+     io_views x' = (if (i =? j) && view_cond b t i op rk p then (io_tok x, rev) :: io_views x else io_views x)).
 Proof.
-  intros Hop. cbn [bapply]. change (b_pend (b <| b_now := t |>)) with (b_pend b). rewrite Hop. cbv zeta.
+  intros Hop. cbn [bapply]. change (b_pend (b <| b_now := t |>)) with (b_pend b). rewrite Hop. cbv zeta. unfold view_cond.
   set (b1 := b <| b_now := t |> <| b_rets ::= _ |> <| b_done ::= _ |>).
   change (inst_of b1 i) with (inst_of b i).
   assert (E1 : forall j, inst_of b1 j = inst_of b j) by reflexivity.
@@ -423,18 +430,20 @@ Proof.
   - set (b2 := upd_inst b1 i (fun x => x <| io_hb_te := t |>)).
     assert (E2 : forall j, inst_of b2 j = if i =? j then inst_of b i <| io_hb_te := t |> else inst_of b j).
     { intros j. unfold b2. rewrite inst_of_upd. reflexivity. }
-    match goal with |- context [if ?c then _ else _] =>
-      lazymatch c with context [kUpdate] => destruct c end end.
+    assert (Ei2 : inst_of b2 i = inst_of b i <| io_hb_te := t |>) by (rewrite E2, Z.eqb_refl; reflexivity).
+    rewrite Ei2.
+    change (vinfo_of b2 (p_val p)) with (vinfo_of b (p_val p)). change (cfg_of b2 i) with (cfg_of b i).
+    change (io_flag (inst_of b i <| io_hb_te := t |>)) with (io_flag (inst_of b i)).
+    change (io_tok (inst_of b i <| io_hb_te := t |>)) with (io_tok (inst_of b i)).
+    cbn [andb].
+    destruct ((p_kind p =? kUpdate) && (p_inner p =? sHeartbeat) && (rk =? oOk) && io_flag (inst_of b i)
+              && (v_stok (vinfo_of b (p_val p)) =? io_tok (inst_of b i)) && (t - p_t p <? hb_update_timeout (ic_H (cfg_of b i)))).
     + split; [reflexivity|]. intros j. cbv zeta. rewrite inst_of_upd, !E2.
       destruct (Z.eqb_spec i j) as [->|Hne]; [rewrite Z.eqb_refl|]; cbn; rewrite ?Ecd; repeat split; reflexivity.
     + split; [reflexivity|]. intros j. cbv zeta. rewrite E2.
       destruct (Z.eqb_spec i j) as [->|Hne]; cbn; rewrite ?Ecd; repeat split; reflexivity.
-  - match goal with |- context [if ?c then _ else _] =>
-      lazymatch c with context [kUpdate] => destruct c end end.
-    + split; [reflexivity|]. intros j. cbv zeta. rewrite inst_of_upd, !E1.
-      destruct (Z.eqb_spec i j) as [->|Hne]; cbn; rewrite ?Ecd; repeat split; reflexivity.
-    + split; [reflexivity|]. intros j. cbv zeta. rewrite E1.
-      destruct (Z.eqb_spec i j) as [->|Hne]; cbn; rewrite ?Ecd; repeat split; reflexivity.
+  - cbn [andb]. split; [reflexivity|]. intros j. cbv zeta. rewrite E1.
+    destruct (Z.eqb_spec i j) as [->|Hne]; cbn; rewrite ?Ecd; repeat split; reflexivity.
 Qed.
 
 Lemma T_ret b t i op rk rev val :
@@ -478,10 +487,10 @@ Proof.
     unfold lr_won in W. cbn [lr_kind lr_inner lr_rk] in W. apply andb_prop in W. destruct W as [W Ok]. apply Z.eqb_eq in Ok.
     assert (Hk : p_kind p = kCreate \/ p_kind p = kUpdate) by (destruct (wonkind_cases p W) as [K|[K _]]; auto).
     destruct (Hwr Ok Hk) as [X Y]. rewrite Ecf. rewrite Ecf in Kk. split; [exact Kk|]. lia.
-  - intros j. destruct (Hx j) as (_ & _ & _ & _ & S & _). cbv zeta in S. rewrite S, Ht. pose proof (T6 j). lia.
+  - intros j. destruct (Hx j) as (_ & _ & _ & _ & S & _ & _). cbv zeta in S. rewrite S, Ht. pose proof (T6 j). lia.
   - lia.
   - intros op'. rewrite Hd, Hp. intros [<-|Hin]; [eauto|apply T8; exact Hin].
-  - intros j Fj. destruct (Hx j) as (Xf & Xa & Xo & Xs & Xst & Xe). cbv zeta in Xf, Xa, Xo, Xs, Xst, Xe.
+  - intros j Fj. destruct (Hx j) as (Xf & Xa & Xo & Xs & Xst & Xe & _). cbv zeta in Xf, Xa, Xo, Xs, Xst, Xe.
     rewrite Xf in Fj. cbv zeta. rewrite Xa, Xo, Xs, Xst, Xe, Ec, Ew.
     destruct (T9 j Fj) as (Tidle & Tfly & Tstop). cbv zeta in Tidle, Tfly, Tstop.
     destruct ((i =? j) && (io_hb_op (inst_of b j) =? op) && (io_hb_te (inst_of b j) <? 0)) eqn:Ecd.
